@@ -310,11 +310,9 @@ def Chunk.data : Chunk → Except Exc Bytes
   | .bytes b => .ok b
   | .buf b _ => .ok b
 
-/-- the `len(chunk)` that goes into the chunk-size line (after the `str` → `bytes` conversion) -/
-def Chunk.sizeLine (c : Chunk) (d : Bytes) : Nat :=
-  match c with
-  | .str _ => d.length
-  | _ => c.len
+/-- the `memoryview(chunk).nbytes` that goes into the chunk-size line (after the `str` → `bytes`
+conversion): the number of bytes handed to `send`, whatever the item size of a buffer -/
+def Chunk.sizeLine (_c : Chunk) (d : Bytes) : Nat := d.length
 
 /-- the body loop of `request` -/
 def sendChunks (chunked : Bool) : List Chunk → Sent
@@ -512,20 +510,24 @@ def rewindBody (body : Body) (pos : BodyPos) : Except Exc Body :=
     (match f.seek with
      | .ok => .ok (.file { f with pos := n })
      | .raises => .error .unrewindableBody
-     | .absent => .error .valueError)
+     | .absent => .error .unrewindableBody)  -- `elif isinstance(body_pos, int)`: no `seek()`
   | _, .failedTell => .error .unrewindableBody
-  | _, _ => .error .valueError
+  | _, .int _ => .error .unrewindableBody    -- an integer position, but nothing to `seek()` on
+  | _, .none => .error .valueError           -- `body_pos` of another type (not reached by `urlopen`)
+
+/-- `set_file_position(body, None)`: the recorded position (the body is left as it is) -/
+def recordPos (body : Body) : BodyPos :=
+  match body with
+  | .file f => (match f.tell with
+     | .ok => .int f.pos
+     | .raises => .failedTell
+     | .absent => .none)
+  | _ => .none
 
 /-- `set_file_position(body, pos)` -/
 def setFilePosition (body : Body) (pos : BodyPos) : Except Exc (Body × BodyPos) :=
   match pos with
-  | .none =>
-    (match body with
-     | .file f => (match f.tell with
-        | .ok => .ok (body, .int f.pos)
-        | .raises => .ok (body, .failedTell)
-        | .absent => .ok (body, .none))
-     | _ => .ok (body, .none))
+  | .none => .ok (body, recordPos body)
   | p => (rewindBody body p).map fun b => (b, p)
 
 /-- what happens to one attempt -/
@@ -550,8 +552,12 @@ structure HState where
   meth : Str
   headers : List (Str × Str)
   body : Body
+  /-- the `body_pos` argument of the next `urlopen` call -/
   pos : BodyPos
   after303 : Bool
+  /-- manager level only: the local `body_pos` of the `PoolManager.urlopen` call whose pool call is
+  retrying; `none` at the entry of a `PoolManager.urlopen` call (nothing recorded yet) -/
+  mgr : Option BodyPos
 
 structure HResult where
   attempts : List Attempt
@@ -561,25 +567,38 @@ structure HResult where
 def pmc (headers : List (Str × Str)) : List (Str × Str) :=
   headers.filter fun kv => !((Gen.contentSpecificHeaders.map lower).contains (lower kv.1))
 
-/-- the `body_pos` the next `urlopen` call receives after a redirect: the pool's recursive call
-passes it on, `PoolManager.urlopen`'s does not -/
-def nextPos (lvl : Level) (pos1 : BodyPos) : BodyPos :=
+/-- `PoolManager.urlopen`: `body_pos = kw.get("body_pos")`, `if body_pos is None: body_pos =
+set_file_position(kw.get("body"), None)` — evaluated at the entry of the call, before the pool call
+consumes the body; kept while the pool call retries -/
+def managerPos (st : HState) : BodyPos :=
+  match st.mgr with
+  | some m => m
+  | none => match st.pos with
+    | .none => recordPos st.body
+    | p => p
+
+/-- the `body_pos` the next `urlopen` call receives after a 301/302/307/308 redirect: the pool's
+recursive call passes on its own (`pos1`), `PoolManager.urlopen`'s recursive call the one it recorded
+itself (`mpos`) -/
+def nextPos (lvl : Level) (pos1 mpos : BodyPos) : BodyPos :=
   match lvl with
   | .pool => pos1
-  | .manager => .none
+  | .manager => mpos
 
 /-- One `urlopen` call tree: every element of the history is the outcome of one attempt.  At pool
 level (`HTTPConnectionPool.urlopen(redirect=True)`) every recursive call receives `body_pos`; at
 manager level the pool is called with `redirect=False`, so retries stay inside the pool call (with
-`body_pos`) while a redirect returns to `PoolManager.urlopen`, whose recursive call does not pass
-`body_pos`. -/
+the pool's `body_pos`) while a redirect returns to `PoolManager.urlopen`, whose recursive call passes
+the position it recorded itself.  After a 303 both drop the body and the recorded position. -/
 def sendHistory (lvl : Level) (cfg : Cfg) (target : Str) (chunked : Bool) : List Outcome → HState → HResult
   | [], _ => ⟨[], .ok ()⟩
   | o :: rest, st =>
+    let mpos := managerPos st
     match setFilePosition st.body st.pos with
     | .error e => ⟨[], .error e⟩
     | .ok (body1, pos1) =>
-      if o = .connErr then sendHistory lvl cfg target chunked rest { st with body := body1, pos := pos1 }
+      if o = .connErr then
+        sendHistory lvl cfg target chunked rest { st with body := body1, pos := pos1, mgr := some mpos }
       else
         let r := request cfg st.meth target st.headers body1 chunked
         let a : Attempt := ⟨r.sent.written, st.after303⟩
@@ -588,12 +607,12 @@ def sendHistory (lvl : Level) (cfg : Cfg) (target : Str) (chunked : Bool) : List
         | none =>
           let next : Option HState := match o with
             | .ok | .connErr => none
-            | .readErr | .retryStatus => some { st with body := r.after, pos := pos1 }
+            | .readErr | .retryStatus => some { st with body := r.after, pos := pos1, mgr := some mpos }
             | .redirectKeep =>
-              some { st with body := r.after, pos := nextPos lvl pos1 }
-            | .redirect303 =>
+              some { st with body := r.after, pos := nextPos lvl pos1 mpos, mgr := none }
+            | .redirect303 =>                  -- `body = None`, `body_pos = None`
               some { meth := lit "GET", headers := pmc st.headers, body := .none, after303 := true,
-                     pos := nextPos lvl pos1 }
+                     pos := .none, mgr := none }
           match next with
           | none => ⟨[a], .ok ()⟩
           | some st' =>
